@@ -42,6 +42,30 @@ CHECKS = {
         ],
         'assumptions': ASSUME_COMMON,
     },
+    'C05': {
+        'level': 'model_checking',
+        'jobs': [
+            T('MC_RepLike', 'Rep_quick.cfg'),
+            T('MC_RepLike', 'Respondent_quick.cfg'),
+            T('MC_RepLike', 'Rep_plain.cfg', tiers=('thorough',)),
+            T('MC_RepLike', 'Respondent_plain.cfg', tiers=('thorough',)),
+            C('rep', 'TestRep', 'TraceRep', n={'quick': 100, 'thorough': 1200}),
+            C('respondent', 'TestRespondent', 'TraceRespondent', n={'quick': 100, 'thorough': 1200}),
+        ],
+        'assumptions': ASSUME_COMMON,
+    },
+    'C09': {
+        'level': 'model_checking',
+        'jobs': [
+            T('MC_Hops', 'Hops_quick.cfg', workers=4),
+            T('MC_Hops', 'Hops_full.cfg', workers=4, tiers=('thorough',), timeout=3000),
+            C('hops', 'TestHops', 'TraceHops', trivial_len=3, vtimeout=3000),
+        ],
+        'rule': 'one injected message per (receiver, TTL, position of the terminating word or hop byte, number of complete '
+                'words available); the eight receivers are REP, XREP, RESPONDENT, XRESPONDENT, PAIR1, XPAIR1, STAR, XSTAR; '
+                'TTLs: quick {1,2,3,8,9,100,254,255}, thorough 1..255; a case is non-trivial when it has at least 3 events',
+        'assumptions': ASSUME_COMMON,
+    },
     'C13': {
         'level': 'model_checking',
         'jobs': [
